@@ -257,7 +257,7 @@ func (w *World) runPath(job Job, sol *Solver, prefix []int, pending *[][]int, st
 	}
 	sol.Reset()
 	i := &interpreter{prog: w.prog, globals: map[*ssa.Global]*value{}, sizes: w.sizes, ex: ex,
-		pools: map[*value]*poolState{}, syncMaps: map[*value]*omap{}, ghost: map[string]value{}}
+		pools: map[*value]*poolState{}, syncMaps: map[*value]*omap{}, decoderReaders: map[*value]value{}, ghost: map[string]value{}}
 	if rp := w.prog.ImportedPackage("runtime"); rp != nil {
 		i.runtimeErrorString = rp.Type("errorString").Type()
 	}
